@@ -299,6 +299,12 @@ func (gb *gcpBalancer) UpdateClientConnState(ccs balancer.ClientConnState) error
 		gb.initializeConfig(cfg)
 	}
 
+	for sc := range gb.refreshingScRefs {
+		// The replacement subconn of a refresh in flight takes over its channel once it is ready.
+		sc.UpdateAddresses(addrs)
+		sc.Connect()
+	}
+
 	if len(gb.scRefs) == 0 {
 		// gb.mu is already held here: newSubConn() would lock it again.
 		gb.addSubConn()
